@@ -41,6 +41,24 @@ type Env interface {
 	MapOrder(keys []string) []string
 }
 
+// Coop is implemented by environments that run the code under test as cooperatively scheduled
+// processes; the sync shim turns blocking operations into visible waits through it.
+type Coop interface {
+	// WaitUntil is a scheduling point; the caller runs on only once ready() holds.
+	WaitUntil(kind string, ready func() bool)
+	// Note records a non-blocking synchronisation operation.
+	Note(kind string)
+}
+
+// Sched returns the cooperative scheduler, or nil when the code runs on real goroutines.
+func Sched() Coop {
+	if E == nil {
+		return nil
+	}
+	c, _ := E.(Coop)
+	return c
+}
+
 // E is installed by the engine before any code under test runs.
 var E Env
 
